@@ -157,6 +157,24 @@ def variant_of(t, names=None):
     return v
 
 
+def strip_sites(t):
+    """term with call sites removed (for comparing terms from different evaluations)"""
+    if not isinstance(t, tuple):
+        return t
+    if t and t[0] == "call" and len(t) == 5:
+        return ("call", t[1], t[2], tuple(strip_sites(x) for x in t[3]), None)
+    if t and t[0] == "mutated" and len(t) >= 3:
+        return ("mutated", strip_sites(t[1])) + tuple(None if i == 0 else strip_sites(x) for i, x in enumerate(t[2:]))
+    return tuple(strip_sites(x) if isinstance(x, (tuple, frozenset)) else x for x in t) if not isinstance(t, frozenset) else frozenset(strip_sites(x) for x in t)
+
+
+def strip_generics_path(ob):
+    """callee id of a trait-method impl body, as call terms carry it (`std::ops::Mul::mul`)"""
+    tr = ob.j.get("impl", {}).get("trait", "")
+    tr = tr.split("<", 1)[0]
+    return tr + "::" + (ob.j.get("name") or ob.key.rsplit("::", 1)[-1])
+
+
 def site_path(site):
     """call path of code inlined at `site`"""
     p = site[2] if len(site) > 2 and isinstance(site[2], tuple) else ()
@@ -537,6 +555,7 @@ class Eval:
             return v
         live = body.live_blocks()
         alts = []
+        pred_vals = {}
         for p in body.pred(b):
             if p not in live:
                 continue
@@ -559,6 +578,7 @@ class Eval:
                         v = ("update", base, dproj[len(proj):], self.call_val(env, p))
             if v is None:
                 v = self._lookup_in_block(env, pk, p, None, visiting | {vk})
+            pred_vals[p] = v
             if v[0] == "phi":
                 for a in v[1]:
                     if a not in alts:
@@ -566,6 +586,10 @@ class Eval:
             elif v not in alts:
                 alts.append(v)
         real = [a for a in alts if a[0] not in ("loopback",)]
+        if len(real) == 2 and len(pred_vals) == 2 and env.pred_filter is None:
+            folded = self._fold_enum_operator(env, b, pred_vals)
+            if folded is not None:
+                real = [folded]
         if len(real) == 1:
             v = real[0]
         elif not real:
@@ -580,6 +604,95 @@ class Eval:
         if not visiting:
             env.memo[mk] = v
         return v
+
+    def _fold_enum_operator(self, env, b, pred_vals):
+        """a `match` on an enum value W written out by hand whose arms compute exactly what a local operator
+        `<&Enum as Op<M>>::op(W, M)` computes for the respective variant is that operator call: the merge block `b` of a
+        clean diamond (the switch on W's discriminant is b's immediate dominator, each arm reaches b in a straight line —
+        no further test, so no guarded arm) whose per-arm values equal the operator's own per-variant results."""
+        body = env.body
+        if getattr(self, "_folding", False):
+            return None
+        dom = body.dominators().get(b)
+        if not dom:
+            return None
+        cands = [d for d in dom if d != b]
+        if not cands:
+            return None
+        s_ = max(cands, key=lambda d: len(body.dominators()[d]))
+        sw = [x for x in body.discr_switches() if x[0] == s_]
+        if not sw:
+            return None
+        _, si, spk, variants = sw[0]
+        st = body.blocks[s_]["stmts"][si]
+        adt = st["rv"].get("adt")
+        ops = self.enum_operators(adt)
+        if not ops:
+            return None
+        term = body.blocks[s_]["term"]
+        arm_val = {}
+        for val, name in variants:
+            tg = dict((v, t) for v, t in term["targets"]).get(val)
+            if tg is None:
+                return None
+            cur, steps = tg, 0
+            while cur != b and steps < 24:
+                nx = body.succ(cur)
+                if len(nx) != 1 or (cur != tg and len(body.pred(cur)) != 1):
+                    return None
+                prev, cur = cur, nx[0]
+                steps += 1
+            if cur != b:
+                return None
+            last_ = tg if steps == 0 else prev
+            if steps == 0 or last_ not in pred_vals:
+                return None
+            arm_val[name] = pred_vals[last_]
+        if len(arm_val) != len(variants) or len(set(id(v) for v in arm_val.values())) < 1:
+            return None
+        try:
+            W = self.lookup(env, spk, (s_, si))
+        except RecursionError:
+            return None
+        self._folding = True
+        try:
+            for ob in ops:
+                # the operand: what the operator returns for the variant on which it is the identity
+                for name, M in arm_val.items():
+                    ok = True
+                    for vn, av in arm_val.items():
+                        saved = self.assumed
+                        self.assumed = dict(saved or {})
+                        self.assumed[W] = vn
+                        try:
+                            r = self.inline_ret(ob, {1: W, 2: M}, env.depth + 1, env.path + ((body.key, s_),))
+                        except RecursionError:
+                            r = None
+                        finally:
+                            self.assumed = saved
+                        if r is None or strip_sites(r) != strip_sites(av):
+                            ok = False
+                            break
+                    if ok:
+                        return ("call", strip_generics_path(ob), ob.j.get("impl", {}).get("self_adt"), (W, M), (body.key, s_, env.path))
+        finally:
+            self._folding = False
+        return None
+
+    def enum_operators(self, adt):
+        """local binary operator impls `impl Op<M> for &Enum` (kept symbolic by the rules) for the enum `adt`"""
+        if not adt:
+            return []
+        cache = self.__dict__.setdefault("_enum_ops", {})
+        if adt not in cache:
+            out = []
+            for k, ob in self.facts.bodies.items():
+                im = ob.j.get("impl", {})
+                if ob.kind != "Closure" and im.get("self_adt") == adt and im.get("trait", "").startswith("std::ops::") and k.startswith("<&") \
+                        and ob.arg_count == 2 and self.facts.adts.get(adt, {}).get("kind") == "Enum":
+                    out.append(ob)
+            cache[adt] = out
+        return cache[adt]
 
     # ------------------------------------------------------------------ #
     # calls
